@@ -23,6 +23,7 @@ def ob_json(w, r, ob, k, c):
             d["ensures"] = c.get("ensures", [])
             d["requires"] = c.get("requires", [])
             d["raises"] = c.get("raises", {})
+            d["raises_iff"] = c.get("raises_iff", {})
             d["contract"] = c["key"]
     if ob.status == "undecided":
         d["reason"] = getattr(ob, "reason", None)
